@@ -3,3 +3,4 @@ pub mod dbgtree;
 pub mod spec;
 pub mod image;
 pub mod compare;
+pub mod build;
